@@ -278,20 +278,20 @@ include hO hC in
 theorem step_start {s : St} (h : InvStart O C s) (e : Event) : Inv O C true (isTerm e) (step fixed s e) := by
   cases e with
   | term => exact .done true true (term_start hO hC h)
-  | startLine p f u c =>
+  | startLine p f u d c =>
     open_start
     cases p
     · refine .done true false ?_
-      by_cases hz : ssc = 0 <;> cases f <;> cases u <;> cases c <;> settle
+      by_cases hz : ssc = 0 <;> cases f <;> cases u <;> cases d <;> cases c <;> settle
     · cases u
       · refine .start ?_
-        cases f <;> cases c <;> settle
+        cases f <;> cases d <;> cases c <;> settle
       · cases f
         · refine .start ?_
-          cases c <;> settle
+          cases d <;> cases c <;> settle
         · cases c
-          · exact .peer false (by settle)
-          all_goals exact .done true false (by settle)
+          · exact .peer false (by cases d <;> settle)
+          all_goals exact .done true false (by cases d <;> settle)
   | eof => open_start; exact .done true false (by settle)
   | readError => open_start; exact .done true false (by settle)
   | lineTooLong => open_start; exact .done true false (by settle)
